@@ -25,6 +25,20 @@ Part T  transmissions.  One *scenario* = channel configuration + a history of
           forms  1-D input for a single transmit antenna / transmitter, list
                  input, profile passed as object / discretized object
           longm  channel memory >= fft_size
+          events set_num_antennas (incl. the documented None/None reset), switched_direction
+                 toggled, generate_impulse_response called directly, set_pathloss - as
+                 history events between transmissions (every sequence <= 2)
+          scale  amplitudes 1e-12 / 1e12, path loss 1e-12 / 1, Ts 1e-9, tap spans of 150 dB
+          dtype  complex64 / float / int signals x C / Fortran / strided / negative-stride /
+                 time-major / read-only memory layouts (and lists)
+          sizes  signal lengths and fft sizes around powers of two, 1023..1025, 4097
+        Argument aliasing is exercised in EVERY scenario: signal / selection / profile /
+        path-loss arrays must be bit-identical after each call; the caller re-uses ONE
+        array object per shape for consecutive signals and selections (in-place new
+        content) and overwrites its profile and path-loss arrays after handing them
+        over; arrays returned by the library (outputs, reported taps, frequency
+        responses) are overwritten with NaN by the caller (even transmissions) or
+        kept and compared after the next call (odd transmissions).
         Defects of the library that stop a scenario (a valid request raising) are
         reported under their own precise signature and the scenario is counted
         as cut short; everything else an exception is a violation via chk.guard.
@@ -59,7 +73,9 @@ RULE = ("D: every ordered tuple of 1..4 raw tap delays q*Ts/4, q in 0..12, x pow
         "all ordered in thorough). T: every scenario of the families time/freq/hist/ploss/lin/cost/"
         "forms/longm (module docstring): wrapper class x antennas x direction x generator x profile x "
         "operation history; each transmission is compared with the nested-loop convolution / O(N^2) DFT "
-        "of the impulse response reported after it. Non-trivial: a transmission with channel memory > 0 "
+        "of the impulse response reported after it; families events/scale/dtype/sizes add history events, "
+        "numeric scales, dtypes/layouts and size thresholds; caller-side aliasing (re-used argument "
+        "objects, overwritten returned arrays) is applied in every scenario. Non-trivial: a transmission with channel memory > 0 "
         "or more than one antenna/link or a proper subcarrier selection; distinct = distinct "
         "(family, wrapper, antennas, direction, generator, discretized delays, operation kinds)")
 
